@@ -224,6 +224,7 @@ var extErrClasses = []struct {
 	{regexp.MustCompile(`cannot extend service .* not found`), "notFound"},
 	{regexp.MustCompile(`^services\..* must be a mapping`), "serviceNotMapping"},
 	{regexp.MustCompile(`no such file or directory`), "fileNotFound"},
+	{regexp.MustCompile(`^unexpected type `), "pathNotString"}, // paths.ResolveRelativePaths on the extended file: extends.file of a non-string kind
 }
 
 func realExtends(raw json.RawMessage) any {
@@ -384,6 +385,7 @@ var depCycleRe = regexp.MustCompile(`^dependency cycle detected: (.*)$`)
 func realCheckCycle(raw json.RawMessage) any {
 	var a depArgs
 	json.Unmarshal(raw, &a)
+	debug.SetMaxStack(64 << 20) // unbounded recursion must die quickly
 	p := &types.Project{Services: types.Services{}}
 	for _, e := range a.Graph {
 		name := e[0].(string)
@@ -460,7 +462,17 @@ func init() {
 	})
 	core.Register("c01extends", &core.CheckDef{Real: realExtends, DriverOp: "c01extends", Judge: judgeExtends, Timeout: 4 * time.Second})
 	core.Register("c01include", &core.CheckDef{Real: realInclude, DriverOp: "c01include", Judge: judgeInclude, Timeout: 5 * time.Second})
-	core.Register("c01checkCycle", &core.CheckDef{Real: realCheckCycle, DriverOp: "c01checkCycle", Judge: crashOr("Dep.checkCycle ≠ graph.CheckCycle")})
+	core.Register("c01checkCycle", &core.CheckDef{Real: realCheckCycle, DriverOp: "c01checkCycle", Timeout: 5 * time.Second,
+		Judge: func(args, real, drv json.RawMessage) *core.Verdict {
+			if why := nonTermination(real); why != "" {
+				if again := confirmNonTermination("c01checkCycle", args, 20*time.Second); again != nil && nonTermination(again) == "" {
+					real = again
+				} else {
+					return core.Fail("hang@checkCycle", "graph.CheckCycle does not return on this dependency graph ("+why+"); the model answers "+string(drv))
+				}
+			}
+			return crashOr("Dep.checkCycle ≠ graph.CheckCycle")(args, real, drv)
+		}})
 }
 
 // ---------------------------------------------------------------- generators
